@@ -126,6 +126,8 @@ def explore(cfg, init_facts, transfer, assume=None, init_consts=None, skip_exc=T
                 k, val = _const(a.value)
                 if k:
                     nconsts[a.targets[0].id] = val
+                elif isinstance(a.value, ast.Name) and a.value.id in consts:
+                    nconsts[a.targets[0].id] = consts[a.value.id]      # a copy of a known value
         decided = tv(a, consts, assume) if node.kind == "test" else UNKNOWN
         for t, lab in cfg.succ[nid]:
             exc = is_exc_label(lab)
